@@ -46,6 +46,8 @@ type OptModel struct {
 	AbsPaths    bool
 	JSX         int
 	Packages    int
+	Pure        int // 0 none; otherwise marks built-in globals as pure / defines a dotted global
+	MetaAbs     bool // metafile paths in absolute style
 }
 
 var (
@@ -97,6 +99,9 @@ func GenOptions(g G, p *Project) *OptModel {
 	if g.chance(8) {
 		o.Packages = 1
 	}
+	// o.Pure stays 0 here: marking console.log pure removes the module markers the
+	// oracles rely on; C08 sets it for sibling builds only
+	o.MetaAbs = g.chance(12)
 	return o
 }
 
@@ -184,6 +189,21 @@ func (o *OptModel) Build(p *Project) api.BuildOptions {
 	}
 	if o.Format == 2 {
 		b.GlobalName = "GlobalLib"
+	}
+	switch o.Pure {
+	case 1:
+		b.Pure = []string{"console.log"}
+	case 2:
+		b.Pure = []string{"Object.freeze", "Math.random"}
+	case 3:
+		if b.Define == nil {
+			b.Define = map[string]string{}
+		}
+		b.Define["Math.PI"] = "3"
+		b.Pure = []string{"console.log"}
+	}
+	if o.MetaAbs {
+		b.AbsPaths = api.MetafileAbsPath
 	}
 	return b
 }
